@@ -257,6 +257,18 @@ def CVal.view (m : Bytes) : CVal → Option Val
       some (.arg (.blob ((m.drop off).take len.toNat)))
     else none
 
+/-- the iterator's output as the caller observes it: every returned union viewed -/
+def iterateView (m : Bytes) : Option (List (UInt8 × Val)) :=
+  match iterate m with
+  | none => none
+  | some l => l.mapM (fun x => (x.2.view m).map (fun v => (x.1, v)))
+
+/-- `rtosc_argument(m, idx)` as the caller observes it -/
+def argumentView (m : Bytes) (idx : Nat) : Option Val :=
+  match argument m idx with
+  | none => none
+  | some v => v.view m
+
 /-- the C string at offset `p` (e.g. the type string at `argString`) -/
 def cstrAt (m : Bytes) (p : Nat) : Option Bytes := cstr (m.drop p)
 
